@@ -472,8 +472,14 @@ class Effects:
             if ridx >= len(c.args):
                 return False
             recv = self.slicer.operand(fn, c.args[ridx])
+            if mode == 'must' and self._short_circuits(fn, c):
+                # `xs.iter().try_for_each(f)` / `.map(f).collect::<Result<..>>()` stop at the first failure: the closures
+                # have run for every element only if a failure of the whole cannot end in a success of fn
+                return True
             if mode == 'must':
-                for name, clv, rv in iters.stages(recv):
+                for name, clv, rv, stopped in iters.stages(recv, with_stop=True):
+                    if stopped:
+                        continue   # a later take_while / map_while / take stops pulling: not every element is seen
                     for elem, fa, filtered in iters.alts(self.slicer, rv):
                         if not filtered:
                             self._expand_closure(fn, c, clv, [elem], fa if forall is None else forall, 'must', mapping, chain, stack, out)
@@ -489,6 +495,20 @@ class Effects:
                 return True
             return mode == 'must' or not self.prog.fn_item_args(c)
         return False
+
+    SHORT_CIRCUIT = (iters.IT + 'try_for_each', iters.IT + 'try_fold', iters.IT + 'collect', iters.IT + 'sum', iters.IT + 'product',
+                     'std::iter::FromIterator::from_iter')
+
+    def _short_circuits(self, fn, c):
+        """a consumer that stops at the first Err / None (by its result type) and whose failure may still end in a
+        success of fn (the result is not `?`-ed / unwrapped / returned but handed to something tolerant)"""
+        if c.decl not in self.SHORT_CIRCUIT:
+            return False
+        if c.decl not in (iters.IT + 'try_for_each', iters.IT + 'try_fold') and \
+                not (c.dty or '').startswith(('std::result::Result<', 'std::option::Option<')):
+            return False
+        from .discard import ok_on_success
+        return not ok_on_success(self.prog, fn, c)
 
     # closures handed to Option / Result combinators: which payload their first parameter receives
     COMB_OK = ('::map', '::and_then', '::is_some_and', '::is_ok_and', '::inspect', '::filter', '::map_or', '::map_or_else', '::is_none_or')
